@@ -150,7 +150,7 @@ def svd_oracle_check(D, U, S, V, k_expected, sv_true, which, tol, full):
         bad.append("columns of U not orthonormal")
     if not (np.abs(V.conj().T @ V - np.eye(k)).max() <= tol):
         bad.append("columns of V not orthonormal")
-    sc = float(sv_true.max())
+    sc = float(sv_true.max()) or 1.0
     want = np.sort(sv_true)[::-1][:k] if which == "LM" else np.sort(sv_true)[:k]
     if not (np.abs(np.sort(np.abs(s)) - np.sort(want)).max() <= tol * sc):
         bad.append(f"singular values {np.sort(np.abs(s)).tolist()} are not the {k} {'largest' if which == 'LM' else 'smallest'} of {np.sort(sv_true).tolist()}")
@@ -210,6 +210,19 @@ def run(ctx):
                 kw["max_iters"] = mi
             if cap == "below":
                 k = rnd.randint(1, max(1, r - 1))
+        if r >= 2 and alg != "LOBPCG" and rnd.random() < 0.2:
+            # rank deficient by one: an exactly zero singular value (the factors must still have orthonormal columns)
+            Uf, _, Vhf = np.linalg.svd(D, full_matrices=False)
+            sv = np.array(list(sv[:-1]) + [0.0])
+            D = (Uf * sv) @ Vhf
+            if not cplx:
+                D = D.real
+            if alg == "Lanczos":
+                which = "LM"      # U = A V Sigma^-1 cannot produce the triplet of a zero singular value: only the non-zero ones are requested
+                k = min(k, r - 1)
+                if cap == "below":
+                    k = min(k, max(1, r - 2))
+            bump(hist, "svd:rank_deficient")
         if alg == "LOBPCG":
             # recorded under C10 (lobpcg_top_block_only): only the n-1 largest eigenpairs of A^H A, in float32, real part only
             if which != "LM" or k > n - 1 or cplx or n < 2 or k > m:
@@ -280,6 +293,30 @@ def run(ctx):
                           f"{L.qc_lit(ctol)} {Sd.shape[0]} {L.qmat(Ud)} {L.qvec(np.diag(Sd))} {L.qmat(Vd)}")
             smeta.append(dict(case=case_js, bad=bad, got=dict(sigma=np.diag(Sd).tolist())))
 
+    # ---------------- svd with Lanczos on large operators: min(m,n) and the iteration count beyond 100, 128, 256
+    for r_ in ([rnd.randint(101, 112), rnd.randint(126, 140), rnd.randint(200, 262)] + ([rnd.randint(101, 300) for _ in range(7)] if ctx.tier == "thorough" else [])):
+        shape_cls = rnd.choice(["wide", "square", "tall"])
+        m, n = dict(wide=(r_, r_ + rnd.randint(5, 40)), square=(r_, r_), tall=(r_ + rnd.randint(5, 40), r_))[shape_cls]
+        sv = np.sort(g.uniform(1.0, 3.0, r_))[::-1].copy()
+        sv[0] *= 1.2
+        Ub, Vb = L.rand_unitary(g, m, False), L.rand_unitary(g, n, False)
+        D = (Ub[:, :r_] * sv) @ Vb[:, :r_].T
+        A = ops.Dense(D)
+        for k, which, kw in ((3, "LM", {}), (r_, "LM", {}), (rnd.randint(2, 5), "SM", dict(max_iters=r_ + 9))):
+            case_js = dict(fn="svd", kind="large", m=m, n=n, k=k, which=which, alg="Lanczos", kwargs=kw, sv_range="[1, 3.6]")
+            evals += 1
+            bump(hist, f"svd:large:Lanczos:{shape_cls}:n>{100 if r_ <= 128 else (128 if r_ <= 256 else 256)}")
+            distinct.add(core.digest(dict(case_js, d00=float(D[0, 0]))))
+            try:
+                U, S, V = svd(A, k, which, Lanczos(**kw))
+                Ud, Sd, Vd = dense3(U, S, V)
+            except Exception as e:
+                mism.append(dict(oracle_fail=True, case=case_js, got=f"{type(e).__name__}: {str(e)[:200]}", failed_clauses=["raised on an input the model accepts"]))
+                continue
+            bad = svd_oracle_check(D.astype(np.complex128), Ud, Sd, Vd, k, sv, which, 1e-7, k == r_)
+            if bad:
+                mism.append(dict(oracle_fail=True, case=case_js, failed_clauses=bad, got=dict(sigma=np.diag(Sd)[:6].tolist())))
+
     # ---------------- svd, structural rules
     for _ in range(ctx.budget(40, 300)):
         n = rnd.randint(1, 5)
@@ -297,6 +334,12 @@ def run(ctx):
             neg_ok = "svd_diag_negative_sigma" not in present
             d = np.array([complex((rnd.randint(1, 9) * (rnd.choice([-1, 1]) if neg_ok else 1)) / rnd.choice([1, 2, 4]),
                                   (rnd.randint(-4, 4) / 2) if (neg_ok and cplx) else 0) for _ in range(n)])
+            if rnd.random() < 0.35:
+                d[rnd.randrange(n)] = 0.0            # an exactly zero singular value among the triplets
+            if n >= 2 and rnd.random() < 0.2:
+                d[rnd.randrange(n)] = d[rnd.randrange(n)]   # repeated
+            if rnd.random() < 0.15:
+                d[rnd.randrange(n)] *= 2.0 ** -900       # tiny
             d = d.astype(getattr(np, dt)) if cplx else d.real.astype(getattr(np, dt))
             A, D = ops.Diagonal(d), np.diag(d)
             if neg_ok:
@@ -394,14 +437,22 @@ def run(ctx):
         if rnd.random() < 0.6:
             scl = 10.0 ** (rnd.uniform(-3, 3) if f32 else rnd.uniform(-8, 8))
             D, sv = D * scl, sv * scl
+        colspread = 0
+        if not algn.startswith("CG") and not f32 and rnd.random() < (0.6 if m < n else 0.25):
+            # badly scaled columns (norms spread over up to 10 decades): the minimum-norm clause is about the ORIGINAL variables
+            colspread = rnd.choice([1, 1, 2, 3, 5])
+            D = D * (10.0 ** np.array([rnd.uniform(-colspread, colspread) for _ in range(n)]))[None, :]
+            sv = np.linalg.svd(D, compute_uv=False)
         dt = ("complex64" if f32 else "complex128") if cplx else ("float32" if f32 else "float64")
-        wname, A = wrap(rnd, g, D, dt, plain=(scl != 1.0 or big))
+        wname, A = wrap(rnd, g, D, dt, plain=(scl != 1.0 or big or colspread > 0))
         Dd = np.asarray(A.to_dense()).astype(np.complex128)
         k = rnd.choice([1, 2, 3])
         B = (g.standard_normal((m, k)) + (1j * g.standard_normal((m, k)) if cplx else 0)).astype(getattr(np, dt))
         cond = float(sv.max() / sv.min())
         base = 1e-3 if f32 else (1e-5 if algn == "CG" else 1e-8)
         tol = base * max(1.0, cond ** 2 if algn.startswith("CG") else cond)
+        if colspread:
+            tol = max(1e-9, 1e-14 * cond * max(m, n))      # LAPACK's accuracy for the minimum-norm solution: eps * cond
         ref = np.linalg.pinv(Dd) @ B.astype(np.complex128)
         sc = float(np.abs(ref).max())
         precision = 1e-6 if f32 else 1e-15
@@ -416,6 +467,8 @@ def run(ctx):
         bump(hist, f"pinv:{algn}:{'wide' if m < n else 'square' if m == n else 'tall'}" + (":big" if big else ""))
         if scl != 1.0:
             bump(hist, "pinv:scale:1e%+03d" % (2 * int(np.floor(np.log10(scl) / 2))))
+        if colspread:
+            bump(hist, f"pinv:column_spread_1e{colspread}:{'wide' if m < n else 'square' if m == n else 'tall'}")
         distinct.add(core.digest(case_js))
         if len(samples) < 4:
             samples.append({kk: v for kk, v in case_js.items() if kk not in ("M", "B")})
@@ -468,7 +521,7 @@ def run(ctx):
             ne = float(np.abs(Dd.conj().T @ (Dd @ Xo - B)).max())
             y, *_ = np.linalg.lstsq(Dd.conj().T, Xo.astype(np.complex128), rcond=None)
             rng_res = float(np.abs(Dd.conj().T @ y - Xo).max())
-            ht = (1e-3 if f32 else 1e-9) * cond * max(m, n)
+            ht = (1e-3 if f32 else (1e-13 if colspread else 1e-9)) * cond * max(m, n)
             if not (ne <= ht * amax * (amax * xmax + bmax) and rng_res <= ht * xmax):
                 mism.append(dict(oracle_fail=bool(bad), case=case_js, failed_clauses=bad + [f"the lstsq oracle violates its specification (normal equations {ne:.3g}, range of A^H {rng_res:.3g})"]))
                 continue
